@@ -136,6 +136,8 @@ fn lengths(c: usize, thorough: bool, rng: &mut impl Rng) -> Vec<usize> {
     if c == 32 {
         v.extend(0..=70);
         v.extend([95, 96, 97, 127, 128, 129, 255, 256, 257, 511, 513, 991, 992, 993, 994, 1000, 1023, 1024, 1025, 1055, 1056, 1057, 1088]);
+        // two and three 32-row tiles of the vector kernel (the tile loop runs more than once)
+        v.extend([2047, 2048, 2079, 2080, 3009, 3072]);
         if thorough {
             v.extend(71..=1100);
             v.extend([2047, 2048, 2049, 4095, 4096, 4097, 8191, 8192, 8193]);
